@@ -127,7 +127,7 @@ class World:
 
 class Execution:
     __slots__ = ("outcomes", "raw", "alpha", "deadlock", "steps", "waited", "trace", "dir", "store",
-                 "locks", "used_preemptions", "total_steps", "log", "stores", "extra", "saw_timed")
+                 "locks", "used_preemptions", "total_steps", "log", "stores", "extra", "saw_timed", "livelock")
 
 
 def run_program(world, calls, order, preemptions, mp_mode=False, keep_dir=False, on=None, read_boundaries=False,
@@ -156,10 +156,12 @@ def run_program(world, calls, order, preemptions, mp_mode=False, keep_dir=False,
     ch = sched.preemption_chooser(order, preemptions)
     ex = Execution()
     ex.deadlock = None
+    ex.livelock = False
     try:
         raw = s.run(ch)
     except sched.Deadlock as dl:
         ex.deadlock = dl.info
+        ex.livelock = isinstance(dl, sched.Livelock)
         raw = [t.result for t in s.ts]
     ex.raw = raw
     ex.outcomes = tuple(norm_outcome(op, r) for op, r in zip(calls, raw))
